@@ -69,12 +69,16 @@ type Cell struct {
 
 type State struct {
 	cells map[*Cell]Term
+	ptrs  map[*Cell]PV // cells that hold a pointer to another cell (pointer identity is kept)
 }
 
 func (s *State) clone() *State {
-	n := &State{cells: make(map[*Cell]Term, len(s.cells))}
+	n := &State{cells: make(map[*Cell]Term, len(s.cells)), ptrs: make(map[*Cell]PV, len(s.ptrs))}
 	for k, v := range s.cells {
 		n.cells[k] = v
+	}
+	for k, v := range s.ptrs {
+		n.ptrs[k] = v
 	}
 	return n
 }
@@ -187,7 +191,6 @@ type retPoint struct {
 
 type loopGhost struct {
 	invs   []*CloV
-	rinvs  []*CloV
 	decs   []*CloV
 	labels []string
 }
@@ -404,7 +407,22 @@ func (x *Exec) mergeStates(sts []*State, gs []Term) *State {
 	if len(sts) == 1 {
 		return sts[0]
 	}
-	out := &State{cells: map[*Cell]Term{}}
+	out := &State{cells: map[*Cell]Term{}, ptrs: map[*Cell]PV{}}
+	for c, p := range sts[0].ptrs {
+		same := true
+		for _, s := range sts[1:] {
+			q, ok := s.ptrs[c]
+			if _, live := s.cells[c]; !live {
+				continue
+			}
+			if !ok || !sameVal(p, q) {
+				same = false
+			}
+		}
+		if same {
+			out.ptrs[c] = p
+		}
+	}
 	keys := map[*Cell]bool{}
 	for _, s := range sts {
 		for c := range s.cells {
@@ -659,16 +677,14 @@ func (fr *Frame) registerGhost(c *ssa.Call, kind string, st *State) {
 		lg = &loopGhost{}
 		fr.loops[h] = lg
 	}
-	clo, ok := fr.val(c.Call.Args[0], st).(CloV)
+	clo, ok := fr.closureArg(c.Call.Args[0], st)
 	if !ok {
 		fr.x.unsupported("%s: ghost argument is not a closure literal", fr.fn)
 		return
 	}
 	switch kind {
-	case "Invariant":
+	case "Invariant", "RangeInvariant":
 		lg.invs = append(lg.invs, &clo)
-	case "RangeInvariant":
-		lg.rinvs = append(lg.rinvs, &clo)
 	case "Decreases":
 		lg.decs = append(lg.decs, &clo)
 	}
@@ -684,4 +700,26 @@ func (fr *Frame) evalClosure(c *CloV, args []Val, st *State, g Term) Term {
 	}
 	t, _ := fr.x.termOf(vals[0], st)
 	return t
+}
+
+// closureArg resolves a ghost argument (possibly wrapped in an interface) to the
+// function literal it denotes.
+func (fr *Frame) closureArg(v ssa.Value, st *State) (CloV, bool) {
+	for {
+		switch vv := v.(type) {
+		case *ssa.MakeInterface:
+			v = vv.X
+			continue
+		case *ssa.ChangeType:
+			v = vv.X
+			continue
+		case *ssa.Function:
+			return CloV{Fn: vv}, true
+		case *ssa.MakeClosure:
+			c, ok := fr.val(vv, st).(CloV)
+			return c, ok
+		}
+		c, ok := fr.val(v, st).(CloV)
+		return c, ok
+	}
 }
